@@ -6,6 +6,7 @@ package vhs
 
 import (
 	"context"
+	"math"
 	"net/url"
 	"sync"
 	"time"
@@ -22,6 +23,7 @@ type Miner struct {
 	mu       sync.Mutex
 	ID       string
 	HrGHS    float64
+	carry    float64
 	dest     *url.URL
 	onSubmit func(diff float64)
 	exitCh   chan error
@@ -66,7 +68,14 @@ func (f *Miner) Run(ctx context.Context) error {
 			f.mu.Lock()
 			cb, d, hr := f.onSubmit, f.dest, f.HrGHS
 			f.mu.Unlock()
-			job := hashrate.GHSToJobSubmittedV2(hr, time.Second)
+			// shares have whole-number difficulty (the accounting truncates them: seller_stats.go uint64(diff));
+			// the fraction of a second's work is carried into the next share
+			f.carry += hashrate.GHSToJobSubmittedV2(hr, time.Second)
+			job := math.Floor(f.carry)
+			f.carry -= job
+			if job <= 0 {
+				continue
+			}
 			if d != nil {
 				f.mu.Lock()
 				f.Delivered[d.User.Username()+"@"+d.Host] += job
